@@ -1,4 +1,5 @@
 import Rink.Model.Num
+import Rink.Gen.TempConsts
 /-! Model of `core/src/ast/*.rs` and the token type of `parsing/text_query.rs`. -/
 namespace Rink
 
@@ -100,19 +101,22 @@ def attrFromName : String → Option String
   | "olympic" => some "olympic"
   | _ => none
 
-/-- `Degree::name_base_scale` : (zero-point constant, scale unit) -/
-def Degree.baseScale : Degree → String × String
-  | .celsius => ("zerocelsius", "kelvin")
-  | .fahrenheit => ("zerofahrenheit", "degrankine")
-  | .reaumur => ("zerocelsius", "reaumur_absolute")
-  | .romer => ("zeroromer", "romer_absolute")
-  | .delisle => ("zerodelisle", "delisle_absolute")
-  | .newton => ("zerocelsius", "newton_absolute")
+def Degree.key : Degree → String
+  | .celsius => "celsius" | .fahrenheit => "fahrenheit" | .reaumur => "reaumur"
+  | .romer => "romer" | .delisle => "delisle" | .newton => "newton"
 
-/-- `Display for Degree` -/
-def Degree.display : Degree → String
-  | .celsius => "°C" | .fahrenheit => "°F" | .newton => "°N"
-  | .reaumur => "°Ré" | .romer => "°Rø" | .delisle => "°De"
+/-- `Degree::name_base_scale` : (zero-point constant, scale unit) — read from the table that
+`rkh tables` regenerates from the compiled code on every run (`Rink/Gen/TempConsts.lean`). -/
+def Degree.baseScale (d : Degree) : String × String :=
+  match Gen.degreeNames.lookup d.key with
+  | some p => p
+  | none => ("", "")
+
+/-- `Display for Degree`, likewise regenerated -/
+def Degree.display (d : Degree) : String :=
+  match Gen.degreeDisplay.lookup d.key with
+  | some s => s
+  | none => ""
 
 /-- `Expr::new_mul` -/
 def Expr.newMul : List Expr → Expr
